@@ -297,4 +297,3 @@ func (t *Table) TimeRow(rule, field string, dir int, tol string, coef int64, now
 	}
 	return found
 }
-
